@@ -107,18 +107,19 @@ type ExtraEntry struct {
 
 // CfgSpec describes the ApiConfig handed to the balancer.
 type CfgSpec struct {
-	Min      uint32       `json:"min"`
-	Max      uint32       `json:"max"`
-	WM       uint32       `json:"wm"`
-	Fallback bool         `json:"fallback"`
-	UCalls   uint32       `json:"ucalls"`
-	UMs      uint32       `json:"ums"`
-	RR       bool         `json:"rr"`
-	Locator  int          `json:"locator"`
-	NilPool  bool         `json:"nil_pool"`
-	NilCfg   bool         `json:"nil_cfg"`
-	Idle     uint64       `json:"idle,omitempty"` // channelPool.idle_timeout (a field no statement gives a meaning to)
-	Extra    []ExtraEntry `json:"extra,omitempty"`
+	Min         uint32       `json:"min"`
+	Max         uint32       `json:"max"`
+	WM          uint32       `json:"wm"`
+	Fallback    bool         `json:"fallback"`
+	UCalls      uint32       `json:"ucalls"`
+	UMs         uint32       `json:"ums"`
+	RR          bool         `json:"rr"`
+	Locator     int          `json:"locator"`
+	NilPool     bool         `json:"nil_pool"`
+	NilCfg      bool         `json:"nil_cfg"`
+	OddStrategy bool         `json:"odd_strategy,omitempty"` // bind_pick_strategy is a number the enum does not define
+	Idle        uint64       `json:"idle,omitempty"`         // channelPool.idle_timeout (a field no statement gives a meaning to)
+	Extra       []ExtraEntry `json:"extra,omitempty"`
 }
 
 // Plan is everything a run is a function of (together with the tape).
@@ -148,6 +149,9 @@ type Plan struct {
 	Second bool `json:"second,omitempty"`
 	// DynMsg: keyed calls use a message type made for this run (reflect.StructOf)
 	DynMsg bool `json:"dyn_msg,omitempty"`
+	// TwinStart: concurrent plans - a second balancer configured from the same
+	// JSON text gets its first resolver update concurrently with the first one's
+	TwinStart bool `json:"twin_start,omitempty"`
 	// UniField: the key field addressed by the locator "name" is called "ключ"
 	UniField bool `json:"uni_field,omitempty"`
 	// ScaleMix: the plan carries the "pool starts with 17-40 channels" fragment
@@ -328,6 +332,10 @@ func baseCfg(r *rand.Rand) CfgSpec {
 	default:
 		c.WM = 1 + uint32(r.IntN(3))
 	}
+	if r.IntN(12) == 0 {
+		// more channels at start than the default maximum, and no maximum given
+		c.Min, c.Max = uint32(5+r.IntN(3)), 0
+	}
 	// the extremes of the uint32 fields ("no limit"): sizes and watermarks beyond
 	// int32, as large as the type allows
 	if r.IntN(15) == 0 {
@@ -342,6 +350,7 @@ func baseCfg(r *rand.Rand) CfgSpec {
 	if r.IntN(4) == 0 {
 		c.Idle = []uint64{1, 2, 60, 3600}[r.IntN(4)] // seconds
 	}
+	c.OddStrategy = !c.RR && r.IntN(8) == 0
 	return c
 }
 
@@ -389,6 +398,7 @@ func Generate(r *rand.Rand, profile string, concurrent bool, av Avoid) *Plan {
 	}
 	p.Verbose = r.IntN(8) == 0 || (profile == "chaos" && r.IntN(4) == 0)
 	p.Second = !concurrent && r.IntN(6) == 0
+	p.TwinStart = concurrent && r.IntN(5) == 0
 	p.DynMsg = r.IntN(4) == 0
 	p.UniField = r.IntN(5) == 0
 	p.SharedAddrs = r.IntN(4) == 0
@@ -948,6 +958,48 @@ func Generate(r *rand.Rand, profile string, concurrent bool, av Avoid) *Plan {
 		frag = append(frag, end...)
 		frag = append(frag, Op{K: OpSteps, A: 40})
 		at := 1 + r.IntN(2)
+		ops := append([]Op{}, p.Ops[:at]...)
+		ops = append(ops, frag...)
+		p.Ops = append(ops, p.Ops[at:]...)
+	}
+	// Directed concurrent fragment (fallback on): a key's home channel is being
+	// refreshed and its old connection has already left READY; calls for the key -
+	// which need a stand-in - start while the replacement's READY report (the
+	// takeover, which re-points the key) is processed.
+	if concurrent && (profile == "fallback" || profile == "chaos") && r.IntN(4) == 0 && len(p.Ops) > 4 {
+		k := r.IntN(nKeys)
+		st := func() int { return r.IntN(5) }
+		p.Cfg.Fallback, p.Cfg.RR = true, false
+		p.Cfg.Min, p.Cfg.Max = 2, 2
+		if p.Cfg.UCalls == 0 || p.Cfg.UMs == 0 || p.Cfg.UMs > 1000 {
+			p.Cfg.UCalls, p.Cfg.UMs = 1, 10
+		}
+		n := int(p.Cfg.UCalls)
+		frag := []Op{
+			{K: OpConn, A: 0, B: ConnProgress}, {K: OpConn, A: 0, B: ConnProgress},
+			{K: OpSteps, A: 60},
+			{K: OpPick, B: MBind, Keys: []int{k}, N: 30}, // one READY channel: the key's home is channel 0
+			{K: OpDone, A: -1, B: OutOK, Keys: []int{k}, N: 30},
+			{K: OpConn, A: 1, B: ConnProgress, N: 20}, {K: OpConn, A: 1, B: ConnProgress, N: 20},
+		}
+		for c := 0; c < n; c++ {
+			frag = append(frag, Op{K: OpPick, B: MBound, Keys: []int{k}, D: 1, E: 1, N: 20})
+		}
+		frag = append(frag, Op{K: OpSteps, A: 40}, Op{K: OpAdvance, E: int(p.Cfg.UMs) + 2})
+		for c := 0; c < n; c++ {
+			frag = append(frag, Op{K: OpDone, A: -1, B: OutClientDE, N: 30}) // refresh of the home starts
+		}
+		frag = append(frag, Op{K: OpSteps, A: 30},
+			Op{K: OpConn, A: 0, B: ConnFail, N: 30},      // the old connection leaves READY
+			Op{K: OpConn, A: -1, B: ConnProgress, N: 30}) // the replacement connects
+		tail := []Op{{K: OpConn, A: -1, B: ConnProgress, N: st()}}
+		for c := 2 + r.IntN(2); c > 0; c-- {
+			tail = append(tail, Op{K: OpPick, B: MBound, Keys: []int{k}, N: st()})
+		}
+		r.Shuffle(len(tail), func(a, b int) { tail[a], tail[b] = tail[b], tail[a] })
+		frag = append(frag, tail...)
+		frag = append(frag, Op{K: OpSteps, A: 60})
+		at := 1
 		ops := append([]Op{}, p.Ops[:at]...)
 		ops = append(ops, frag...)
 		p.Ops = append(ops, p.Ops[at:]...)
